@@ -35,7 +35,9 @@ theorem s1_decisions_are_model (s : St α κ) :
        if s1Accept.eval v then { s with decision := some .accept, queue := s.queue ++ [.user .accept] }
        else if s1Abort.eval v then { s with decision := some .abort, queue := s.queue ++ [.user .abort] }
        else { s with decision := some .interactive, select1 := false, exit0 := false }) := by
+  -- by cases on the four values, so that the conjuncts may be written in either order in the source
   unfold decide1
   simp only [s1Accept, s1Abort, BExp.eval]
+  all_goals (cases (s.list.length == 1) <;> cases (s.list.length == 0) <;> cases s.select1 <;> cases s.exit0 <;> rfl)
 
 end SkimModel.Session
